@@ -492,6 +492,15 @@ func (g *tmplGen) layout(ts *TmplSet) {
 			"<b " + g.ap + `insert="pm"></b><b ` + g.ap + `insert="pc"></b>`
 		other["lib.html"] = "<template " + g.ap + `define="pc"><i ` + g.ap + `range="_, q : ` + coll + `" ` + g.ap + `text="${q}"></i></template>` + other["lib.html"]
 	}
+	if g.r.Chance(4) {
+		// a definition named like ANOTHER file of the set: the names clash whichever of the two is loaded first
+		if len(other) > 0 && g.r.Chance(50) {
+			mainSrc += "<template " + g.ap + `define="lib.html">x</template>`
+			other["lib.html"] += ""
+		} else {
+			other["lib.html"] += "<template " + g.ap + `define="main.html"><i>y</i></template>`
+		}
+	}
 	ts.Files = append(ts.Files, [2]string{"main.html", mainSrc})
 	var on []string
 	for n := range other {
